@@ -189,7 +189,7 @@ def parseHook (t : String) : Option (Nat × Nat × Option (Nat × Nat) × Nat) :
 def checkHW (toks : List String) : String :=
   let (a, b) := splitArrow toks
   match natsOf a, b with
-  | some [_, _, _], T :: unordered :: hooks =>
+  | some [_, _, _], T :: unordered :: hooks | some [_, _, _, 1], T :: unordered :: hooks =>   -- 4th parameter 1: pooled hooks, counted after the pool drained
     match T.toNat?, unordered.toNat?, hooks.mapM parseHook with
     | some T, some u, some hs =>
       verdict (u == 0 && hs.all (fun h => hwOk T h.1 h.2.1 h.2.2.1 h.2.2.2)) "hook-calls-outside-window"
